@@ -2,74 +2,87 @@
    The masked permutation kernels (C64 and x86-64 assembly, 2/3/4 shares), the masked-word toolkit
    (C64 and x86-64 assembly) and the masked-key functions (KEY_SHARES = 2, 3, 4) are re-translated from
    /repo on every run (Gen/Masked_*.v, Gen/MWord.v); these theorems are about that translated code, for ALL
-   share values and ALL random words.  The layout-free share algebra (Model/Maskm.v) carries the
+   share values and ALL random words.  Only the PROGRAMS come from the translators: what "the unmasked value" of a
+   masked word / state is, what is observed of a function's outputs and what it is compared with are defined by
+   hand in Obl/MWordSpec.v (mval64, mval32, state_val, std_post, std_spec), and the lists of functions every table
+   must contain are the hand-written req_* lists there.  The layout-free share algebra (Model/Maskm.v) carries the
    history-level statements and is tied to the built library by the correspondence check. *)
 From Coq Require Import List Arith Bool NArith Lia String. Import ListNotations.
 From AsconV Require Import Bits.Bytes Sym.Wexpr Sym.Pipe Sym.Kernel Sym.KernelP Sym.VKernel Obl.KernMaskedDefs Obl.FnObl
   Gen.Masked_mx2_c64 Gen.Masked_mx3_c64 Gen.Masked_mx4_c64 Gen.Masked_mx2_x86 Gen.Masked_mx3_x86 Gen.Masked_mx4_x86
   Gen.MaskedObl_mx2_c64 Gen.MaskedObl_mx3_c64 Gen.MaskedObl_mx4_c64 Gen.MaskedObl_mx2_x86 Gen.MaskedObl_mx3_x86 Gen.MaskedObl_mx4_x86
-  Gen.MWord Gen.MWordObl Model.Maskm Proofs.AeadP Proofs.MaskP.
+  Gen.MWord Gen.MWordObl Obl.MWordCover Model.Maskm Proofs.AeadP Proofs.MaskP.
 
-(* For every first_round k <= 12: whatever the shares, the preserved random words (and, for the assembly,
-   the registers on entry) are, the unmasked value of the state after the translated ascon_xN_permute is
-   rounds k..11 of the unmasked value before.  The value programs (un-rotate each share, XOR) are part of
-   the interface data and are printed in Gen/Masked_*.v. *)
-Definition masked_perm_correct (ifs : list viface) (ein eout : nat) (segs : list vseg) (chains : list (nat * list nat)) : Prop :=
-  forall k, k <= 12 -> exists idx, In (k, idx) chains /\
-  forall v, widths_of v = vi_w (vif ifs ein) ->
-  run BoolAlg (vrun_chain (vchain_of segs idx) v) (vi_val (vif ifs eout)) =
-  pexec BoolAlg (rounds_pipe KL64 (seq k (12 - k))) (run BoolAlg v (vi_val (vif ifs ein))).
-
-Theorem C10_perm_x2_c64 : masked_perm_correct mx2_c64_ifaces mx2_c64_entry mx2_c64_exit mx2_c64_segs mx2_c64_chains.
-Proof. exact (vbackend_sound _ _ _ _ _ mx2_c64_ok). Qed.
+(* Obl/KernMaskedDefs.masked_perm_std be n max ifs entry exit segs chains:
+     the entry interface begins with the 5 x 8 max bytes of the masked state and the 8 (n-1) preserved bytes (the
+     assembly adds the registers on entry), the exit interface is exactly those bytes, and
+     for every first_round k <= 12 there is a chain of translated segments such that, whatever the share bytes
+     (including the surplus shares), the preserved random words (and the entry registers) are,
+         state_val be n max (memory after the translated ascon_xN_permute)
+           = rounds k..11 (state_val be n max (memory before)),
+   where Obl/MWordSpec.state_val B64 n max is, per state word i, XOR_{j<n} rotl_{11 j} (le64 (bytes at 8 max i + 8 j)).
+   The value programs of the cut points inside the function are the translator's and internal to the proof. *)
+Theorem C10_perm_x2_c64 : masked_perm_std B64 2 4 mx2_c64_ifaces mx2_c64_entry mx2_c64_exit mx2_c64_segs mx2_c64_chains.
+Proof. exact (vbackend_sound_std _ _ _ _ _ _ _ _ mx2_c64_ok mx2_c64_std_ok). Qed.
 Print Assumptions C10_perm_x2_c64.
-Theorem C10_perm_x3_c64 : masked_perm_correct mx3_c64_ifaces mx3_c64_entry mx3_c64_exit mx3_c64_segs mx3_c64_chains.
-Proof. exact (vbackend_sound _ _ _ _ _ mx3_c64_ok). Qed.
+Theorem C10_perm_x3_c64 : masked_perm_std B64 3 4 mx3_c64_ifaces mx3_c64_entry mx3_c64_exit mx3_c64_segs mx3_c64_chains.
+Proof. exact (vbackend_sound_std _ _ _ _ _ _ _ _ mx3_c64_ok mx3_c64_std_ok). Qed.
 Print Assumptions C10_perm_x3_c64.
-Theorem C10_perm_x4_c64 : masked_perm_correct mx4_c64_ifaces mx4_c64_entry mx4_c64_exit mx4_c64_segs mx4_c64_chains.
-Proof. exact (vbackend_sound _ _ _ _ _ mx4_c64_ok). Qed.
+Theorem C10_perm_x4_c64 : masked_perm_std B64 4 4 mx4_c64_ifaces mx4_c64_entry mx4_c64_exit mx4_c64_segs mx4_c64_chains.
+Proof. exact (vbackend_sound_std _ _ _ _ _ _ _ _ mx4_c64_ok mx4_c64_std_ok). Qed.
 Print Assumptions C10_perm_x4_c64.
-Theorem C10_perm_x2_x86_64_asm : masked_perm_correct mx2_x86_ifaces mx2_x86_entry mx2_x86_exit mx2_x86_segs mx2_x86_chains.
-Proof. exact (vbackend_sound _ _ _ _ _ mx2_x86_ok). Qed.
+Theorem C10_perm_x2_x86_64_asm : masked_perm_std B64 2 4 mx2_x86_ifaces mx2_x86_entry mx2_x86_exit mx2_x86_segs mx2_x86_chains.
+Proof. exact (vbackend_sound_std _ _ _ _ _ _ _ _ mx2_x86_ok mx2_x86_std_ok). Qed.
 Print Assumptions C10_perm_x2_x86_64_asm.
-Theorem C10_perm_x3_x86_64_asm : masked_perm_correct mx3_x86_ifaces mx3_x86_entry mx3_x86_exit mx3_x86_segs mx3_x86_chains.
-Proof. exact (vbackend_sound _ _ _ _ _ mx3_x86_ok). Qed.
+Theorem C10_perm_x3_x86_64_asm : masked_perm_std B64 3 4 mx3_x86_ifaces mx3_x86_entry mx3_x86_exit mx3_x86_segs mx3_x86_chains.
+Proof. exact (vbackend_sound_std _ _ _ _ _ _ _ _ mx3_x86_ok mx3_x86_std_ok). Qed.
 Print Assumptions C10_perm_x3_x86_64_asm.
-Theorem C10_perm_x4_x86_64_asm : masked_perm_correct mx4_x86_ifaces mx4_x86_entry mx4_x86_exit mx4_x86_segs mx4_x86_chains.
-Proof. exact (vbackend_sound _ _ _ _ _ mx4_x86_ok). Qed.
+Theorem C10_perm_x4_x86_64_asm : masked_perm_std B64 4 4 mx4_x86_ifaces mx4_x86_entry mx4_x86_exit mx4_x86_segs mx4_x86_chains.
+Proof. exact (vbackend_sound_std _ _ _ _ _ _ _ _ mx4_x86_ok mx4_x86_std_ok). Qed.
 Print Assumptions C10_perm_x4_x86_64_asm.
 
-(* A translated function meets its obligation: what is observed of its outputs (fo_post: the unmasked value,
-   the individual shares, the surplus shares) equals the specification (fo_spec) as a function of the same
-   inputs (shares, data bytes and random words), for all inputs.  For load: value = the data, share j >= 1 =
-   the rotation of its own fresh word, surplus shares 0.  For store: the bytes of the value.  For randomize:
-   value kept, share 0 moved by the XOR of the fresh words, share j >= 1 by the rotation of the j-th.  For
-   xor: value = XOR of the values. *)
-Definition fn_correct (o : fn_obl) : Prop :=
-  forall v : list (list bool), widths_of v = fo_widths o ->
-  run BoolAlg (run BoolAlg v (fo_prog o)) (fo_post o) = run BoolAlg v (fo_spec o).
-
-Theorem C10_word_toolkit_c64 : forall o, In o mword_c64_obls -> fn_correct o.
-Proof. exact (fn_obl_sound _ mword_c64_ok). Qed.
+(* Obl/FnObl.table_correct tab reqs:
+   (a) every obligation o of the regenerated table meets the hand-written specification of its descriptor
+       (fn_meets_std): the descriptor is well-formed against the input widths (region bytes first, the fresh random
+       words behind them, each read by exactly one unit), its function name is c_name (kind, shares), and for ALL
+       inputs v (share bytes incl. surplus shares, data bytes, random words; for assembly also the entry registers)
+           run (run v (fo_prog o)) (std_post d) = run v (std_spec d);
+   (b) every (kind, value algebra, shares, MAX_SHARES) of the hand-written list reqs has an obligation in the table.
+   Obl/MWordSpec.std_post / std_spec, per kind:
+     load      : value = the 8 data bytes big-endian; share j >= 1 = the rotation of its own fresh word; surplus shares 0
+     store     : the bytes of the value
+     randomize : value kept; share 0 moved by the XOR of the fresh words, share j >= 1 by the rotation of the j-th;
+                 surplus shares of the destination untouched
+     xor       : value = XOR of the values
+     xN_from_xM (distinct and in place): value kept; surplus shares of the result 0 *)
+Theorem C10_word_toolkit_c64 : table_correct mword_c64_obls (req_toolkit B64 4 false).
+Proof. exact (table_sound _ _ mword_c64_ok mword_c64_covers). Qed.
 Print Assumptions C10_word_toolkit_c64.
-Theorem C10_word_toolkit_x86_64_asm : forall o, In o mword_x86_obls -> fn_correct o.
-Proof. exact (fn_obl_sound _ mword_x86_ok). Qed.
+Theorem C10_word_toolkit_x86_64_asm : table_correct mword_x86_obls (req_toolkit B64 4 false).
+Proof. exact (table_sound _ _ mword_x86_ok mword_x86_covers). Qed.
 Print Assumptions C10_word_toolkit_x86_64_asm.
 
 (* ascon_masked_key_{128,160}_{init,extract,randomize_with_trng} for KEY_SHARES = 2, 3, 4 (over the C64 word
    toolkit): init gives words whose values are the key words with every share j >= 1 its own fresh word;
    extract returns the bytes of the values; randomize keeps every value and moves every share of every
    word by its own fresh word *)
-Theorem C10_masked_keys : forall o, In o mkey_obls -> fn_correct o.
-Proof. exact (fn_obl_sound _ mkey_ok). Qed.
+Theorem C10_masked_keys : table_correct mkey_obls (req_keys B64).
+Proof. exact (table_sound _ _ mkey_ok mkey_covers). Qed.
 Print Assumptions C10_masked_keys.
 (* masked states (five masked words) over the C64 word toolkit: ascon_xN_randomize keeps every value and moves
    every share of every word by its own fresh word; ascon_xN_copy_from_xM (also in place, as the AEAD code uses
    it) keeps every value.  The word-toolkit lists above also contain the share-count conversions xN_from_xM
    with distinct and with aliased operands. *)
-Theorem C10_masked_states : forall o, In o mstate_obls -> fn_correct o.
-Proof. exact (fn_obl_sound _ mstate_ok). Qed.
+Theorem C10_masked_states : table_correct mstate_obls (req_states B64 4).
+Proof. exact (table_sound _ _ mstate_ok mstate_covers). Qed.
 Print Assumptions C10_masked_states.
+(* the hand-written value function on the wexpr semantics: a word masked as S[0] = d xor r1 xor r2 xor r3,
+   S[j] = rotr_{11 j} r_j (32-bit layout: bit planes, each rotated right by 5 j) has value d, for all d, r1, r2, r3 *)
+Theorem C10_value_of_masked :
+  check_pipes [64; 64; 64; 64] (PSeq (PRun masked_image64) (PRun (outs_prog [mval64 4 0]))) (PRun (outs_prog [WIn 0])) = true /\
+  check_pipes [64; 64; 64; 64] (PSeq (PRun masked_image32) (PRun (outs_prog [mval32 4 0]))) (PRun (outs_prog [WIn 0])) = true.
+Proof. exact (conj mval64_of_masked mval32_of_masked). Qed.
+Print Assumptions C10_value_of_masked.
 Example C10_coverage : List.length mword_c64_obls = 24 /\ List.length mword_x86_obls = 24 /\ List.length mkey_obls = 18 /\ List.length mstate_obls = 18.
 Proof. vm_compute. repeat split. Qed.
 
